@@ -203,7 +203,21 @@ macro_rules! cover {
     }};
 }
 
+/// Stand-in for `AdtDeserializer::new` in harnesses whose inputs only contain records with stored
+/// version 0: the real function is never called on such inputs, and the stub *asserts* that (so a
+/// change that makes it reachable is reported, not hidden). It keeps CBMC from symbolically
+/// executing the header parser on the infeasible continuations it explores after a failed read.
+pub fn stub_adt_new<'a: 'a, 'b: 'b, 'c: 'c>(
+    _metadata: &'a desert_core::adt::AdtMetadata,
+    _context: &'b mut desert_core::DeserializationContext<'c>,
+    _stored_version: u8,
+) -> desert_core::Result<desert_core::adt::AdtDeserializer<'a, 'b, 'c>> {
+    assert!(false, "AdtDeserializer::new reached on data whose records all have stored version 0");
+    Err(desert_core::Error::InputEndedUnexpectedly)
+}
+
 /// Declares a harness: a Kani proof under `cargo kani`, an ordinary `#[test]` natively.
+/// `v0only` additionally applies `stub_adt_new`.
 #[macro_export]
 macro_rules! proof {
     ($(#[$m:meta])* fn $name:ident() unwind($u:expr) $body:block) => {
@@ -213,6 +227,22 @@ macro_rules! proof {
         #[kani::unwind($u)]
         #[kani::stub(std::fmt::format, $crate::sym::stub_format)]
         #[kani::stub(core::fmt::write, $crate::sym::stub_fmt_write)]
+        pub fn $name() $body
+
+        #[cfg(all(not(kani), test))]
+        #[test]
+        fn $name() {
+            $crate::sym::native_run(stringify!($name), || $body)
+        }
+    };
+    ($(#[$m:meta])* v0only fn $name:ident() unwind($u:expr) $body:block) => {
+        $(#[$m])*
+        #[cfg(kani)]
+        #[kani::proof]
+        #[kani::unwind($u)]
+        #[kani::stub(std::fmt::format, $crate::sym::stub_format)]
+        #[kani::stub(core::fmt::write, $crate::sym::stub_fmt_write)]
+        #[kani::stub(desert_core::adt::AdtDeserializer::new, $crate::sym::stub_adt_new)]
         pub fn $name() $body
 
         #[cfg(all(not(kani), test))]
